@@ -28,6 +28,7 @@ import (
 	"github.com/youzan/ZanRedisDB/common"
 	"github.com/youzan/ZanRedisDB/node"
 	"github.com/youzan/ZanRedisDB/server"
+	"github.com/youzan/ZanRedisDB/wal"
 )
 
 type conf struct {
@@ -36,6 +37,9 @@ type conf struct {
 	ReplicaID uint64                    `json:"replica_id"`
 	SnapSyncs []common.SnapshotSyncInfo `json:"snap_syncs"`
 	CtlPort   int                       `json:"ctl_port"`
+	// wal.SegmentSizeBytes (the package variable etcd's own tests shrink): a small value
+	// makes segment cuts and purges happen within one history. 0 keeps the default.
+	WALSegmentBytes int64 `json:"wal_segment_bytes"`
 }
 
 type clusterInfo struct{ syncs []common.SnapshotSyncInfo }
@@ -67,6 +71,9 @@ func main() {
 	ln, err := net.Listen("tcp", "127.0.0.1:"+strconv.Itoa(c.CtlPort))
 	if err != nil {
 		die("control listener: %v", err)
+	}
+	if c.WALSegmentBytes > 0 {
+		wal.SegmentSizeBytes = c.WALSegmentBytes
 	}
 	s, err := server.NewServer(c.Server)
 	if err != nil {
